@@ -861,6 +861,12 @@ def exp_term(x):
 
 
 def lgamma(x):
+    if cfg.concrete_floats and isinstance(x, (int, float, _np.number)) and not isinstance(x, bool):
+        # fully concrete modules: numba's lgamma (no exception at the poles)
+        try:
+            return math.lgamma(x)
+        except ValueError:
+            return float("inf")
     x = _z(x)
     if isinstance(x, SymBool):
         x = x._asint()
@@ -1114,6 +1120,7 @@ class _Cfg:
     concrete_ints = False  # integer arrays created by the facade are real numpy arrays
     check_int64 = False  # emit an `int-overflow` event when an integer product can leave int64
     concrete_floats = False  # float arrays created by the facade are real numpy arrays too (fully concrete modules)
+    note_int_truediv = False  # emit an `int-truediv` event when `/` is applied to two integers (the result is a float64 in numba)
 
 
 cfg = _Cfg()
@@ -1899,6 +1906,8 @@ def _scalar_div(a, b, array):
         a = int(a)
     if isinstance(b, (bool, _np.bool_)):
         b = int(b)
+    if cfg.note_int_truediv and Ctx.cur is not None and isinstance(a, (int, _np.integer, SymInt)) and isinstance(b, (int, _np.integer, SymInt)):
+        Ctx.cur.event("int-truediv", a=str(a)[:40], b=str(b)[:40])
     if isinstance(a, (int, _np.integer, Fraction)) and isinstance(b, (int, _np.integer, Fraction)):
         if b == 0:
             if array:
@@ -2441,6 +2450,29 @@ def fresh_int(ctx, name, lo, hi):
     v = z3.Int(name)
     INT_BOUNDS[name] = (lo, hi)
     ctx.assume(z3.And(v >= lo, v <= hi))
+    return v
+
+
+def enum_int(ctx, name, lo, hi, base=16):
+    """solver-enumerated integer in [lo, hi], concretised digit by digit: a path costs O(base * digits) branch queries
+    instead of O(hi - lo) (concretize_int walks the values one at a time)"""
+    span = hi - lo
+    digits = []
+    k = 0
+    place = 1
+    while True:
+        d = z3.Int("%s__d%d" % (name, k))
+        ctx.assume(z3.And(d >= 0, d < base))
+        digits.append((d, place))
+        place *= base
+        k += 1
+        if place > span:
+            break
+    total = z3.Sum([d * pl for d, pl in digits]) if len(digits) > 1 else digits[0][0] * digits[0][1]
+    ctx.assume(total <= span)
+    v = lo
+    for d, pl in reversed(digits):
+        v += ctx.concretize_int(d) * pl
     return v
 
 
